@@ -7,23 +7,27 @@ HERE = os.path.dirname(os.path.dirname(os.path.abspath(__file__)))
 CLAIMED = {
  "C01": dict(
    technique="string/enum/dynamic-type value sets over SSA (validator returns refined by path conditions, field-based store sets, caller arguments, forall-loop idiom) compared with the cases guarding every panicking default + module-wide division/modulo hazard analysis + recursion-guard idioms on reference-following recursions (in-use set, destroyed reference, set-guarded resolver) + nil-guard and discarded-ok contradiction rules + counted-loop recognition",
-   text="Decides structural necessary conditions of crash-freedom and termination of rendering: (R1) 15 panicking defaults over CSS keywords, enum constants and dynamic types cannot be reached by any value their producers can yield; (R2) no integer division or modulo in the module can see a zero divisor (5 named sites rest on list-length invariants); (R3) the five reference-following recursions (var(), <use> by id and by URL, href inheritance, counter-style fallback) are cycle-guarded; (R4) no dereference of the root's missing parent style and no discarded-ok nil dereference; (R5) the re-pagination loop is counted. Not decided and named in the evidence: 36 panicking defaults that rest on computed-value or box-class invariants, 70-odd internal invariant panics, index errors and nil dereferences in general, stack depth of structural recursions, progress of the page loop.",
+   text="Decides structural necessary conditions of crash-freedom and termination of rendering: (R1) the panicking defaults over CSS keywords, enum constants and dynamic types cannot be reached by any value their producers can yield; (R2) no integer division or modulo in the module can see a zero divisor (named sites rest on list-length invariants); (R3) the reference-following recursions (var(), <use> by id and by URL, href inheritance, counter-style extends/fallback) are cycle-guarded, the var() guard scoped to the resolution in progress; (R4) no dereference of the root's missing parent style and no discarded-ok nil dereference; (R5) the re-pagination loop is counted and division loops have a divisor of at least 2; (R7) functions that panic on an empty string or slice are only called with non-empty arguments. Not decided and named in the evidence: panicking defaults that rest on computed-value or box-class invariants, internal invariant panics (R6 inventory), index errors and nil dereferences in general, stack depth of structural recursions, progress of the page loop.",
    ref="4 C01"),
+ "C02": dict(
+   technique="linear normal forms of the keys stored in resume stacks (loop indices over re-sliced child lists must carry the slice's lower bound) + use analysis of the resume point returned by every fragmenting layout call (a discarded one requires bottomSpace = −∞) + index provenance of resume points read from line boxes",
+   text="Thin: decides three structural necessary conditions of content conservation in the fragmentation bookkeeping of html/layout: (R1) every key stored in a ResumeStack is an absolute child index — a loop index over children[skip:] enters a key only together with skip (39 keys); (R2) no fragmenting layout call that is given a real page bottom has its resume point thrown away (measurement passes run with bottomSpace = −∞; two reasoned sites; one reproduced defect, grid items cut at the page bottom and never continued, recorded as a known finding); (R3) a resume point read from a line box is read from the last line kept. That every character is laid out exactly once — which break positions are chosen, what each callee does with its skip stack, float and absolute placeholders, drawing — is a relation over runtime layout values and is not decided.",
+   ref="5, 12.6"),
  "C03": dict(
-   technique="constant/ordering folding of the precedence and comparison functions over SSA + guarded-by (path-condition reachability) on every cascaded-style write + provenance of sheet origins",
-   text="Decides structural necessary conditions of the cascade order on the type-checked source (precedence table, weight/specificity comparison on all orderings, guarded insertion, style-attribute weight, sheet order/origins, media filtering). Not a proof of the behavioural statement: selector matching and in-sheet source order are not decided.",
+   technique="constant/ordering folding of the precedence and comparison functions over SSA + guarded-by (path-condition reachability) on every cascaded-style write + provenance of sheet origins + loop/early-exit rules on the matcher + SSA pattern rules on nested-rule expansion + argument/parameter name agreement",
+   text="Decides structural necessary conditions of the cascade order on the type-checked source: the precedence table and the weight/specificity comparisons on all orderings, guarded insertion into cascaded styles, the style-attribute weight, sheet order and origins, media filtering, that the matcher tests every selector of every rule without early exit, that each part of a nested selector list is made relative to the parent on its own and a rule's own declarations come before those of its nested rules. Not a proof of the behavioural statement: selector matching (C05) and in-sheet source order are not decided here.",
    ref="4 C03"),
  "C04": dict(
-   technique="table/vocabulary agreement over go/types constants and literals + type flow into interface slots (SSA) + polynomial folding of the unit conversion + guarded-by on the defaulting skeleton and on every parent-style dereference",
-   text="Decides structural necessary conditions of CSS defaulting: the six per-property tables agree with each other and with CSS 2.1 Appendix F (inherited flags, initial keywords), every value that can enter a style slot has the slot's type, the unit table holds the fixed CSS ratios, length_ multiplies each relative unit by the right font size, the inherit/initial skeleton of cascadeValue, and the root never dereferences its missing parent. Pending var() paths, caching order and font metrics are not decided.",
+   technique="table/vocabulary agreement over go/types constants and literals + type flow into interface slots (SSA) + symbolic (polynomial) folding of tree.length_, of the percentage font-size and of the line-height computer + guarded-by on the defaulting skeleton and on every parent-style dereference + shared-memory write analysis of the computer functions",
+   text="Decides structural necessary conditions of CSS defaulting: the six per-property tables agree with each other and with CSS 2.1 Appendix F (inherited flags, initial keywords), every value that can enter a style slot has the slot's type, the unit table holds the fixed CSS ratios, length_ multiplies each relative unit by the right font size (a percentage font-size refers to the parent's), computed dimensions carry computed units only, a percentage line-height becomes a length of the element's own font size, the inherit/initial skeleton of cascadeValue, no computer writes through the shared declared value, and the root never dereferences its missing parent. Pending var() paths, caching order and font metrics are not decided.",
    ref="4 C04"),
  "C05": dict(
    technique="vocabulary and dispatch-table agreement between parser, matchers and printers on the AST with go/types constants + specificity constants vs the Selectors-4 table + case-folding provenance and i-flag plumbing on SSA + empty-value scenario reachability + escaping of quoted interpolations + division guards",
-   text="Decides necessary conditions of selector matching/weighing: no parser output can reach a panicking default of a Match dispatcher; specificity constants and the max rule of :is/:not/:has are those of Selectors 4; combinators, attribute operators and structural pseudo-class names dispatch to the specified relation with the specified (a,b,last,ofType); names are ASCII-lowercased and the i flag reaches every comparison; substring/word operators cannot match with an empty value; printed selectors escape quoted values and use names the parser accepts. The matching algorithms themselves (sibling walks, an+b arithmetic, :empty, :lang) are not decided.",
+   text="Decides necessary conditions of selector matching/weighing: no parser output can reach a panicking default of a Match dispatcher; specificity constants and the max rule of :is/:not/:has are those of Selectors 4; combinators, attribute operators and structural pseudo-class names dispatch to the specified relation with the specified (a,b,last,ofType); names are ASCII-lowercased and the i flag reaches every comparison; substring/word operators cannot match with an empty value; class and ~= matching split on the five CSS white space characters only and the *-of-type pseudo-classes compare element names; printed selectors escape quoted values and use names the parser accepts; no swapped same-typed arguments. The matching algorithms themselves (sibling walks, an+b arithmetic, :empty, :lang) are not decided.",
    ref="4 C05"),
  "C06": dict(
-   technique="constant evaluation of the tokenizer's lexical tables from the source: code point predicates evaluated for every code point 0..0x100 from their syntax trees, regular-expression constants extracted and matched against batteries derived from the CSS Syntax railroad diagrams, order and constants of the preprocessing replacements on SSA, case structure of the string consumer",
-   text="Thin: decides that input preprocessing, the name-start / name / whitespace code point classes, the number and hex-escape grammars and the termination rules of quoted strings are those of CSS Syntax 3. Token values in general, url(), nested blocks, !important, source positions and error recovery (how much input a malformed construct consumes) quantify over all input strings and are not decided; that no cursor read leaves the input is decided under C07.R1, not here.",
+   technique="constant evaluation of the tokenizer's lexical tables from the source: code point predicates evaluated for every code point 0..0x100 from their syntax trees, regular-expression constants extracted and matched against batteries derived from the CSS Syntax railroad diagrams, order and constants of the preprocessing replacements on SSA, case structure of the string consumer + sibling-case rule (white space / comment) on every switch and condition of the parsing code + value-flow (append chain) rule on the declaration rewind",
+   text="Thin: decides that input preprocessing, the name-start / name / whitespace code point classes, the number and hex-escape grammars and the termination rules of quoted strings are those of CSS Syntax 3, that every place of the parsing code that steps over white space steps over comments too, and that a failed declaration is re-parsed as a rule on exactly the tokens taken from the iterator (the ';' that stopped the attempt included, the remaining tail last). Token values in general, url(), nested blocks, !important, source positions and error recovery in general quantify over all input strings and are not decided; that no cursor read leaves the input is decided under C07.R1, not here.",
    ref="4 C06, 12.6"),
  "C07": dict(
    technique="bounds/guard analysis over SSA (length by construction, path-condition reachability under len==n scenarios, inferred parameter preconditions checked at static and dynamic call sites, per-function tables of relational invariants) + hazard inventory (explicit panics, unchecked assertions, integer divisions) over the functions statically reachable from the parse entry points + dispatch-table totality",
@@ -31,31 +35,31 @@ CLAIMED = {
    ref="4 C07"),
  "C08": dict(
    technique="case-insensitivity taint over SSA (sources: identifier/unit/function-name/declaration-name fields; sanitisers: ASCII lowercasing; sinks: comparisons, prefix tests and table lookups against lettered constants; return summaries to a fixpoint) + shorthand table bijection and expander/longhand agreement on the AST + path-condition reachability under err != nil in the declaration loop + provenance of validated tokens + visited-set recursion guard",
-   text="Decides necessary conditions of spelling-independence and of dropping bad declarations alone: no raw case-insensitive text reaches a lettered comparison or lookup; the shorthand tables are complete and inverse and expanders only emit declared longhands; a validation error only skips its own declaration; validators see whitespace-free tokens; var() resolution cannot recurse forever on a cycle. That each expander assigns the right tokens to the right longhand, reset-to-initial of omitted parts and var() substitution semantics are not decided.",
+   text="Decides necessary conditions of spelling-independence and of dropping bad declarations alone: no raw case-insensitive text reaches a lettered comparison or lookup; the shorthand tables are complete and inverse and expanders only emit declared longhands; a validation error only skips its own declaration; validators see whitespace-free tokens; var() resolution cannot recurse forever on a cycle; expandBackground puts every per-layer list back in source order; a style's table of custom properties is its own fresh map; no swapped same-typed arguments. That each expander assigns the right tokens to the right longhand, reset-to-initial of omitted parts and var() substitution semantics are not decided.",
    ref="4 C08"),
  "C09": dict(
    technique="table agreement between the display validator/computer vocabulary and makeBox's display → box class switch (AST + constants) against the CSS Display table + must-precede order of the anonymous-box passes on SSA",
    text="Thin: decides that every display value that can be produced has the box class the CSS Display table prescribes, that the anonymous-box passes run in the required order, that the flex and grid item fix-ups apply to block-level and inline-level containers alike, that an element with display none reaches no box creation, style write or recursion in elementToBox, and that table cells span at least one column. What each rewriting pass does (block-in-inline splitting, table wrapping, blockification) and the table grid (spans) are not decided.",
    ref="4 C09"),
  "C10": dict(
-   technique="provenance rules on SSA (field stored / accessor read / property id triple of every resolveOnePercentage call; trace of the reference length back to the components of the containing-block parameter, with the page-box test as path condition) + dominance order and write sets of the min/max wrappers + per-keyword dependence sets of the box-sizing adjustment (path-condition selection of phi edges)",
-   text="Thin: decides that every percentage-resolved used value is stored in the field of the property it was read from and refers to the right dimension of the containing block (vertical margins/paddings to the width except for page boxes), that max is clamped before min with the wrapped function re-run and only the own axis written, that the box-sizing adjustment depends on the paddings/borders CSS names for each keyword, that side-mirrored assignment pairs are mirrored consistently and that sums over margins, paddings and borders use consistent sides (one reproduced flex defect fixed). The width equation 10.3.3, auto margins, margin collapsing and auto heights are numerical relations between runtime values and are not decided.",
+   technique="provenance rules on SSA (field stored / accessor read / property id triple of every resolveOnePercentage call; trace of the reference length back to the containing block, with the page-box test as path condition) + dominance order and write sets of the min/max wrappers + per-keyword dependence sets of the box-sizing adjustment + symbolic folding (one-path interpreter over polynomials, all branch scenarios enumerated) of blockLevelWidth_ and collapseMargin + path-condition guards of the collapse-through flag + side-symmetry, box-edge-sum and argument-name lints",
+   text="Decides that every percentage-resolved used value is stored in the field of the property it was read from and refers to the right dimension of the containing block (vertical margins/paddings to the width except for page boxes); that max is clamped before min with the wrapped function re-run and only the own axis written; that the box-sizing adjustment depends on the paddings/borders CSS names for each keyword; that blockLevelWidth_, folded symbolically for the 8 combinations of auto among width and horizontal margins and both outcomes of the over-constraint test, satisfies the CSS 2.1 §10.3.3 equation with the specified treatment of auto values; that collapseMargin returns the largest positive plus the most negative margin for all 343 arrangements of three symbolic margins; that margins collapse through a box only under the §8.3.1 conditions; and side/argument consistency of the block layout code (one reproduced flex defect fixed). Which margins are adjoining at run time, auto heights, floats and clearance amounts are not decided.",
    ref="4 C10"),
  "C11": dict(
-   technique="keyword-set extraction of every white-space classification test (AST boolean chains over values derived from GetWhiteSpace) compared with the CSS Text classes and a per-function table confirmed by reading + validator/consumer vocabulary agreement",
-   text="Thin: decides that each white-space test uses the right CSS Text class (collapse spaces / collapse newlines / wrap / no-wrap) at each site that the white-space and text-align vocabularies are handled by their consumers, and that the side-mirrored assignment pairs of the inline layout code are mirrored consistently. Widths, break opportunities and greedy filling are not decided.",
+   technique="keyword-set extraction of every white-space classification test (AST boolean chains) compared with the CSS Text classes + validator/consumer vocabulary agreement + symbolic folding of layout.textAlign over all alignment combinations + truth-table reachability (every assignment of the six tests) for the character-wrapping permission in both text engines + linear normal forms of integer comparisons (doubled-offset lint) + side/argument lints",
+   text="Decides that each white-space test uses the right CSS Text class at each site, that the white-space and text-align vocabularies are handled by their consumers, that layout.textAlign returns the specified offset for the 176 combinations of text-align / text-align-last / direction / last line / overflow, that a word is re-wrapped at character level exactly when the line overflows and word-break is break-all or the word starts the line with overflow-wrap anywhere (or break-word outside min-content), in both text engines, that no integer comparison of the layout and text code counts a resume offset twice, and side/argument consistency of the inline layout code. Measured widths, break opportunities found by the shaping engine and greedy filling itself are not decided.",
    ref="4 C11"),
  "C12": dict(
-   technique="keyword-set extraction of the forced/avoid break predicates and of the sibling-resolution choice table (AST + constants) compared with the CSS Fragmentation sets + producer/consumer vocabulary agreement + division guard on the :nth() page arithmetic",
-   text="Thin: decides that the forced and avoid break vocabularies are the CSS Fragmentation sets (column variants only in columns), that every break value the validators emit is classified, that forced beats avoid beats auto between siblings, that :nth() page matching never divides by zero, and that the box-edge sums of the fragmentation code use consistent sides. Page geometry, actual break positions, orphans/widows and blank-page insertion are not decided.",
+   technique="keyword-set extraction of the forced/avoid break predicates and of the sibling-resolution choice table (AST + constants) compared with the CSS Fragmentation sets + producer/consumer vocabulary agreement + division guard on the :nth() page arithmetic + symbolic folding of pageWidthOrHeight for all auto combinations + linear normal forms of the orphans/widows tests + box-edge-sum and argument-name lints",
+   text="Decides that the forced and avoid break vocabularies are the CSS Fragmentation sets (column variants only in columns), that every break value the validators emit is classified, that forced beats avoid beats auto between siblings, that :nth() page matching never divides by zero, that pageWidthOrHeight, folded for the 8 combinations of auto among content size and margins, fills the page size as CSS Paged Media prescribes, that the orphans/widows tests of breakLine and findEarlierPageBreak are exactly the inequalities of CSS 2.1 §13.3.3 (compared as normalised linear forms), and side/argument consistency of the fragmentation code. Actual break positions, page selection and blank-page insertion are not decided.",
    ref="4 C12"),
  "C13": dict(
    technique="SSA pattern rules on the grid slot assignment of wrapTable (loop cursor provenance, advance by colspan, rowspan clamp, occupied-column marking) + constant lower bounds of the span attributes + sibling symmetry, box-edge sums and argument/parameter name agreement on the table layout code",
    text="Thin: decides that a cell spans at least one column, that the slot assignment gives each cell the first column free of row-spanning cells, advances by the colspan, clamps the rowspan to the row group and marks exactly the cell's columns in the spanned rows (so two cells never receive the same slot), and that the table layout code is side-consistent. Column width distribution, row heights, border-spacing and every equality between cell edges are numerical relations between runtime values and are not decided.",
    ref="12.6"),
  "C14": dict(
-   technique="typestate analysis of the backend's current path over SSA (states Empty/NonEmpty, per-entry-state function summaries to a fixpoint, closures entered at their OnNewStack site, CHA for interface calls, non-empty range loops, case split on enum parameters from call-site constant sets) + loop/dominance rules on the page protocol + path-condition guards on link resolution + provenance of metadata and font values",
-   text="Decides structural necessary conditions of a well-formed drawing: (R1) every Paint/Clip of the drawing code is reached only with a path under construction (24 sites decided, 2 reasoned float-equality sites, 2 reproduced defects recorded as known findings); (R2) one AddPage per page in order and one CreateAnchors after the loop fed by resolveLinks; (R3) anchors are defined once (first id wins) and dangling internal links are dropped; (R4) each metadata field reaches its own backend setter from its own <meta>/<title>; (R5) text is drawn only from CreateFirstLine results whose fonts were registered by AddFont. Finiteness of numbers (NaN from degenerate sizes or zoom 0), the bookmark outline, per-canvas path separation and the order of graphic-state calls are not decided.",
+   technique="typestate analysis of the backend's current path over SSA (states Empty/NonEmpty, per-entry-state function summaries to a fixpoint, closures entered at their OnNewStack site, CHA for interface calls, non-empty range loops, case split on enum parameters from call-site constant sets) + loop/dominance rules on the page protocol + path-condition guards on link resolution + provenance of metadata and font values + non-zero proof of every integer count that divides a float (clamps, dominating tests, enclosing range loops) + argument-name lint",
+   text="Decides structural necessary conditions of a well-formed drawing: (R1) every Paint/Clip of the drawing code is reached only with a path under construction (reasoned float-equality sites named, 2 reproduced defects recorded as known findings); (R2) one AddPage per page in order and one CreateAnchors after the loop fed by resolveLinks; (R3) anchors are defined once (first id wins) and dangling internal links are dropped; (R4) each metadata field reaches its own backend setter from its own <meta>/<title>; (R5) text is drawn only from CreateFirstLine results whose fonts were registered by AddFont; (R7) every floating point division by an integer count in the layout and drawing code is reached only with a non-zero count (9 named sites rest on value invariants or unread quotients); (R6) no swapped same-typed arguments. Finiteness of numbers in general, the bookmark outline, per-canvas path separation and the order of graphic-state calls are not decided.",
    ref="4 C14"),
  "C15": dict(
    technique="field-sensitive shared-memory taint over SSA with strong updates and callee mutation/alias summaries to a fixpoint (seeds: declared values of computer functions, style accessor results, package-level variables) + lock-region check for memo caches + AST classifier of every map iteration (order-insensitive patterns, table confirmed by reading) + scan for nondeterminism sources, goroutines, channels and run-time stores to package-level variables",
@@ -63,19 +67,19 @@ CLAIMED = {
    ref="4 C15"),
  "C17": dict(
    technique="polynomial value numbering of the matrix routines over SSA (exact rationals, uninterpreted trig) compared with specification matrices + AST/SSA checks of vocabulary, arity, argument order, composition order and origin conjugation",
-   text="Decides that each routine of package matrix, as a polynomial in its inputs, equals the specification matrix (and in-place operations equal right multiplication by the constructor), that SVG transform.applyTo right-multiplies by the specified matrix per kind with degrees converted to radians, and that the CSS/SVG plumbing (names, arities, argument positions, left-to-right composition, transform-origin conjugation, angle-unit table) is as specified. Float rounding is outside the abstraction; the matrix finally handed to the backend is not traced further than getMatrix/applyTo.",
+   text="Decides that each routine of package matrix, as a polynomial in its inputs, equals the specification matrix (and in-place operations equal right multiplication by the constructor), that SVG transform.applyTo right-multiplies by the specified matrix per kind with degrees converted to radians, that the CSS/SVG plumbing (names, arities, argument positions, left-to-right composition, transform-origin conjugation, angle-unit table) is as specified, and that determinants are only compared with 0 by equality (reflections are applied). Float rounding is outside the abstraction; the matrix finally handed to the backend is not traced further than getMatrix/applyTo.",
    ref="4 C17"),
  "C18": dict(
-   technique="table agreement on the syntax tree of pathParser.addSeg (argument count per command against SVG 1.1 §8.3, relative/absolute pairing, emitted operations, reflection families, closepath state update on SSA) + recursion-guard idioms on <use> resolution and href inheritance",
-   text="Thin: decides that each path command letter is handled with the SVG argument count, that lower-case letters switch to relative coordinates before sharing the upper-case code, that each command emits the operations SVG assigns to it (H/V keeping the other coordinate, Z returning to the sub-path start, smooth commands reflecting only after their own family), and that <use> (by id and URL) and href inheritance are cycle-guarded. All geometry (arcs, reflections, quadratic elevation, viewBox/preserveAspectRatio arithmetic, basic shapes) is not decided; the fixed-position reads of the SVG attribute parsers are decided under C07.",
+   technique="table agreement on the syntax tree of pathParser.addSeg (argument count per command against SVG 1.1 §8.3, relative/absolute pairing, emitted operations, reflection families, closepath state update on SSA) + recursion-guard idioms on <use> resolution and href inheritance + symbolic folding over polynomials and rational functions (reduction modulo sin²+cos²=1, uninterpreted square roots) of reflection, quadratic elevation, the ellipse parameterisation, the arc centre and radii correction, and of rect/ellipse drawing against a recording canvas + argument-name lint",
+   text="Decides that each path command letter is handled with the SVG argument count, that lower-case letters switch to relative coordinates before sharing the upper-case code, that each command emits the operations SVG assigns to it (H/V keeping the other coordinate, Z returning to the sub-path start, smooth commands reflecting only after their own family, repeated smooth segments reflecting the previous one), that the viewBox origin is scaled with the axis scale, that <use> (by id and URL) and href inheritance are cycle-guarded; and, by symbolic folding, that reflection is 2p − r, quadratic-to-cubic elevation is exact, the ellipse parameterisation and its derivative are the standard ones, the arc centre is the one of SVG F.6.5 for the four flag combinations as the caller passes them with too-small radii scaled by √Λ in ratio (F.6.6), and rect/ellipse outlines pass through the points SVG defines with tangent control points. The arc's angle bookkeeping (which way round, how many segments), the number scanner, preserveAspectRatio alignment and gradients/patterns are not decided; the fixed-position reads of the SVG attribute parsers are decided under C07.",
    ref="4 C18"),
  "C19": dict(
    technique="division/modulo hazard analysis (path-condition reachability under divisor==0 and dividend<0 scenarios, coinductive loop-carried sign facts, caller-side preconditions) + vocabulary and dispatch-table agreement on the AST + visited-set (recursion guard) checks on SSA",
-   text="Decides that no integer division or modulo of the counter renderer can see a zero divisor or index with a negative remainder, that the counter-system vocabulary agrees across validator, symbols(), Validate and renderer, that each system dispatches to its algorithm with the Counter Styles negative-sign set and automatic ranges, and that the extends/fallback walks use a visited set. The arithmetic of each system and counter scoping in the box tree are not decided.",
+   text="Decides that no integer division or modulo of the counter renderer can see a zero divisor or index with a negative remainder (division loops have a divisor of at least 2, signs are fixed before the digit loops), that the counter-system vocabulary agrees across validator, symbols(), Validate and renderer, that each system dispatches to its algorithm with the Counter Styles negative-sign set and automatic ranges, that the extends/fallback walks use a visited set, and that a counter instance created by counter-set/increment is registered in the sibling scope. The arithmetic of each system and counter scoping in the box tree beyond that registration are not decided.",
    ref="4 C19"),
  "C16": dict(
-   technique="must-precede / no-way-back analysis on the SSA control-flow graph of drawStackingContext's closures + path-condition reachability over all orderings/truth assignments for the z-index partition and the stacking-context predicate + sort-call and comparator inspection",
-   text="Decides that the Appendix E steps occur in order on every path of drawStackingContext (background, border, negative contexts, blocks, floats, inline content, cells, zero and positive contexts, outlines), that child contexts are partitioned by the sign of z-index and sorted stably with a strict comparison, and that a box starts a stacking context exactly under the four CSS conditions (all 32 assignments). How boxes are dispatched into the block/float/cell lists and the scoping of opacity/transform groups are not decided.",
+   technique="must-precede / no-way-back analysis on the SSA control-flow graph of drawStackingContext's closures + path-condition reachability over all orderings/truth assignments for the z-index partition and the stacking-context predicate + sort-call and comparator inspection + guard and read-before-recursion rules on the dispatch into painting lists + argument-name lint",
+   text="Decides that the Appendix E steps occur in order on every path of drawStackingContext (background, border, negative contexts, blocks, floats, inline content, cells, zero and positive contexts, outlines), that child contexts are partitioned by the sign of z-index and sorted stably with a strict comparison, that a box starts a stacking context exactly under the four CSS conditions (all 32 assignments), that only non-positioned floats go to the float layer and every insertion index is read before the descendants are dispatched. The scoping of opacity/transform groups and the content of each list beyond these guards are not decided.",
    ref="4 C16"),
  "C20": dict(
    technique="constant propagation of the separator table's init loops (cross product of literals) compared with the CSS Syntax §9 fusing-pair oracle + vocabulary agreement with Kind.String() + ParseError kind coverage + escaper case sets",
@@ -84,7 +88,6 @@ CLAIMED = {
 }
 
 NOT_APPLICABLE = {
- "C02": "conservation of text across line/page fragmentation is a multiset equality over runtime layout values and resume stacks; no clause is visible in the shape of the code (DESIGN.md section 5)",
 }
 NOT_YET = "static rules for this property are designed (DESIGN.md section 4) but not built yet in this tree; not claimed until they run clean and fire on their mutants"
 
